@@ -43,6 +43,10 @@ func (d *Document) IntValueAsInt32(ref int) (out int32) {
 
 func (d *Document) IntValueValidInt32(ref int) bool {
 	in := d.Input.ByteSlice(d.IntValues[ref].Raw)
+	if d.IntValues[ref].Negative {
+		// Raw holds the digits without the sign; -2147483648 is a valid Int
+		return unsafebytes.BytesIsValidInt32(append([]byte{'-'}, in...))
+	}
 	return unsafebytes.BytesIsValidInt32(in)
 }
 
